@@ -717,7 +717,7 @@ def run_path(base: str, p: dict, kind: str, t: int) -> dict:
     crash = any(e['op'] == 'crash' for e in path)
     evs = run.run(fork=crash)
     shutil.rmtree(rdir, ignore_errors=True)
-    sig = {'kind': kind, 'action': 'path%d%s' % (len(writers), 'r' if reuse else '')}
+    sig = {'kind': kind, 'action': p.get('lab') or 'path%d%s' % (len(writers), 'r' if reuse else '')}
     sig.update(abnormal_of(path))
     return {'t': t, 'sig': sig, 'init': init, 'unit': UNIT, 'plan': path, 'ev': evs,
             'how': {'mode': 'path', 'kind': kind, 'path': p}}
